@@ -585,7 +585,9 @@ class JSON(Term):
         return format_quotes(json.dumps(value, ensure_ascii=False)[1:-1], quote_char)
 
     def get_sql(self, secondary_quote_char: str = "'", **kwargs: Any) -> str:
-        sql = format_quotes(self._recursive_get_sql(self.value), secondary_quote_char)
+        quote = secondary_quote_char or ""
+        # the JSON text is the content of a string literal: double the literal quote like ValueWrapper does
+        sql = format_quotes(self._recursive_get_sql(self.value).replace(quote, quote * 2), quote)
         return format_alias_sql(sql, self.alias, **kwargs)
 
     def get_json_value(self, key_or_index: Union[str, int]) -> "BasicCriterion":
